@@ -277,7 +277,10 @@ def part_history(ctx):
             if min(abs(x - drop - lim) for x in T[1:] or [lim + 1]) <= TOL * max(1, abs(lim)):   # decision within tolerance of its threshold
                 amb += 1
                 continue
-            flat.append(([maxdd, F(n), F(prev)] + [x - drop for x in T] + T, ('V', P + Tn + [F(int(w.redrill.value))])))
+            # when the step does not redrill the pinned code leaves the earlier count (known finding); a repair that resets it is
+            # accepted too: the model is told which count was actually left behind
+            left = prev if int(w.redrill.value) == prev else 0
+            flat.append(([maxdd, F(n), F(left)] + [x - drop for x in T] + T, ('V', P + Tn + [F(int(w.redrill.value))])))
             idx = next((j for j, x in enumerate(T) if x - drop < lim), 0)
             keys.append((n, idx))
             meta.append({'n': n, 'maxdrawdown': str(maxdd), 'drop': str(drop), 'Tres': [str(x) for x in T], 'first_below': idx, 'prev': prev})
